@@ -158,7 +158,7 @@ def main():
             anchors = set(pr["anchors"]["files"])
     for q in sorted(ctx.analysed_functions):
         f = m.functions.get(q)
-        if f is None or f.parent is not None or (args.only and args.only not in f.file) or (not args.all_files and f.file not in anchors):
+        if f is None or f.parent is not None or (args.only and args.only not in f.file) or (not args.all_files and not (f.file in anchors or any(a.endswith('/') and f.file.startswith(a) for a in anchors))):
             continue
         src = files.setdefault(f.file, open(os.path.join(REPO, f.file), encoding="utf-8").read())
         raw = ast.parse(src)
